@@ -16,6 +16,7 @@ func genAll() {
 	genListeners()
 	genEcho()
 	genBroadcast()
+	genDKGAuth()
 	genBeaconNode()
 	genDKGRun()
 	genSync()
